@@ -182,6 +182,7 @@ class Walker:
         self.opaque_counter = 0
         # boolean fields assigned so far: place term -> [(assigned formula, pc of the assignment)]
         self.store = {}
+        self.applied = set()      # closure defs whose body was inlined during this walk
 
     # ------------------------------------------------------------ plumbing
     @property
@@ -763,6 +764,7 @@ class Walker:
         b = self.prog.bodies.get(cdef)
         if b is None or 'body' not in b:
             return ('opaque', 'closure'), T
+        self.applied.add(cdef)
         params = [p for p in b.get('params', []) if 'pat' in p]
         saved = self.fr.fn
         # closures share the enclosing frame's variable space
